@@ -18,7 +18,7 @@ ASSUMPTIONS = ['oracle: the returned rotation maps both unit references onto bot
                'reference vectors and directions per estimator are those in mc/ref/filters.py (documentation of each class); OLEQ start vector: '
                'np.random.random is an owned seam returning each vector of a fixed menu',
                'OLEQ: tolerance max(1e-6, 1e-7 rho/(1-rho)) with rho the documented contraction ratio of its fixed-point iteration (stopping test 1e-8 on successive iterates)', 'accelerometer-only variants are judged on the gravity direction only']
-REQUIRED_CLASSES = ['S', 'Gp', 'tilt-only', 'pose:level', 'pose:inverted', 'pose:vertical', 'pose:half-turn']
+REQUIRED_CLASSES = ['S', 'Gp', 'int-samples', 'tilt-only', 'pose:level', 'pose:inverted', 'pose:vertical', 'pose:half-turn']
 DIPS_Q = [-45.0, 0.0, 60.0]
 DIPS_T = [-80.0, -45.0, -10.0, 0.0, 1e-9, 10.0, 45.0, 60.0, 80.0]
 SCAL_Q = [(1.0, 1.0), (9.81, 45.0)]
@@ -70,6 +70,16 @@ def attitudes(cls, k):
         for lab, q in edge:
             if rf.general_position(q):
                 out.append((lab, q))
+    # one Euler angle a small non-zero amount away from zero, the other two generic: next to the exact-zero / identity shortcuts
+    # of the factor quaternions (roll, pitch, heading) the closed forms are composed from
+    for small in (3e-6, 1e-4, 2e-3, 5e-3, 8e-3, 1.2e-2):
+        for sgn in (1.0, -1.0):
+            for pos in range(3):
+                ang = [0.7, -0.4, 2.5]
+                ang[pos] = sgn * small
+                q = rq.rpy2q(*ang)
+                if cls == 'S' or rf.general_position(q):
+                    out.append((f'small {("roll", "pitch", "yaw")[pos]}={sgn * small:g}', q))
     return out
 
 
@@ -217,6 +227,53 @@ def job_est(ctx, ename, k, lo, hi):
                         _judge(ctx, est, o if o is not None else np.zeros(1), g, m, a_, m_, sa, sm, tolb, f'{ename}.batch: row maps references onto measurements',
                                f'est={ename} att={lab} frame={frame} dip={dip:g} scale=({sa:g},{sm:g}) row={ri_} rows={order_name}')
                     ctx.cls('batch-rows')
+    # integer-typed samples (raw sensor counts): the same attitudes with the measurements rounded to integers at a known scale,
+    # as int64 / int16 arrays and nested lists of Python ints, through the N-sample and the one-sample entry points
+    if atts:
+        for frame in est.frames:
+            dip = dips[-1]
+            g, m = est.refs(dip, frame)
+            if abs(float(g @ m)) > 0.9999:
+                continue
+            sub = atts[::4]
+            for dtn, scale in (('int64', 1e6), ('int16', 2e4), ('list', 1e6)):
+                meas = [est.measurements(rq.R(q), dip, frame, scale, scale) for _, q in sub]
+                Acc = np.rint(np.array([x[0] for x in meas])); Mag = np.rint(np.array([x[1] for x in meas]))
+                conv = (lambda X: [[int(v) for v in r] for r in X]) if dtn == 'list' else (lambda X: X.astype(dtn))
+                conv1 = (lambda x: [int(v) for v in x]) if dtn == 'list' else (lambda x: x.astype(dtn))
+                tol_i = max(tol0, 100.0 / scale)
+                if est.seeded:
+                    np.random.random = lambda n=4: OLEQ_STARTS[0].copy()
+                try:
+                    runs = []
+                    if est.batch is not None:
+                        try:
+                            ob = est.batch(conv(Acc), None if est.tilt_only else conv(Mag), dip, frame)
+                            runs.append(('batch', list(ob) if len(ob) == len(sub) else [None] * len(sub)))
+                        except TypeError:
+                            ctx.outcome('int-refused')
+                        except Exception as ex:
+                            ctx.evals += 1
+                            ctx.fail(f'{ename}.batch: raises on integer-typed samples', f'est={ename} frame={frame} dtype={dtn}', f'{type(ex).__name__}: {ex}'[:160], 'N attitudes')
+                    singles = []
+                    for ri_ in range(0, len(sub), 3):
+                        try:
+                            singles.append((ri_, est.single(conv1(Acc[ri_]), None if est.tilt_only else conv1(Mag[ri_]), dip, frame)))
+                        except TypeError:
+                            ctx.outcome('int-refused')
+                        except Exception as ex:
+                            ctx.evals += 1
+                            ctx.fail(f'{ename}.single: raises on integer-typed samples', f'est={ename} att={sub[ri_][0]} frame={frame} dtype={dtn}', f'{type(ex).__name__}: {ex}'[:160], 'an attitude')
+                finally:
+                    np.random.random = real_random
+                for en, outs in runs:
+                    for ri_, ((lab, q), o) in enumerate(zip(sub, outs)):
+                        _judge(ctx, est, o if o is not None else np.zeros(1), g, m, Acc[ri_], Mag[ri_], float(np.linalg.norm(Acc[ri_])), float(np.linalg.norm(Mag[ri_])), tol_i,
+                               f'{ename}.{en}: integer-typed samples map references onto measurements', f'est={ename} att={lab} frame={frame} dip={dip:g} dtype={dtn}')
+                for ri_, o in singles:
+                    _judge(ctx, est, o, g, m, Acc[ri_], Mag[ri_], float(np.linalg.norm(Acc[ri_])), float(np.linalg.norm(Mag[ri_])), tol_i,
+                           f'{ename}.single: integer-typed samples map references onto measurements', f'est={ename} att={sub[ri_][0]} frame={frame} dip={dip:g} dtype={dtn}')
+                ctx.cls('int-samples')
     if atts:
         lab, q = atts[0]
         a, mg = est.measurements(rq.R(q), dips[0], est.frames[0], *scal[-1])
